@@ -124,6 +124,14 @@ class MystReferenceResolver(ReferencesResolver):
             elif not newnode.children:
                 newnode.append(nodes.literal(target, target))
 
+            # an id set on the link (kept on the inner node) must survive the resolution,
+            # also when the domain builds the reference with content of its own
+            if len(node) and isinstance(node[0], nodes.Element):
+                kept = {
+                    i for n in newnode.findall(nodes.Element) for i in n.get("ids", [])
+                }
+                newnode["ids"].extend(i for i in node[0]["ids"] if i not in kept)
+
             node.replace_self(newnode)
 
     def resolve_myst_ref_doc(self, node: pending_xref):
